@@ -387,10 +387,32 @@ func (r *Runner) mergeInto(a, b *State) bool {
 		}
 	}
 	// commit
+	if b.leakAll {
+		a.leakAll = true
+	}
+	for k, v := range b.leaked {
+		if v {
+			if a.leaked == nil {
+				a.leaked = map[*ssa.Alloc]bool{}
+			}
+			a.leaked[k] = true
+		}
+	}
 	a.lastCall = lastCall
-	sufA, sufB := a.pc[n:], b.pc[n:]
-	a.pc = append(append([]Term{}, a.pc[:n]...), Eq(g, ga), Or(And(sufA...), And(sufB...)))
-	_ = gb
+	// The two suffixes are NAMED (pa, pb) and their definitions hoisted out of the path condition: a later merge
+	// then embeds two small names instead of copying these suffixes three times (queries grew to megabytes).
+	// A definition of a fresh name is a conservative extension, so asserting it unconditionally is sound.
+	pa, pb := Fresh("pcA", SBool), Fresh("pcB", SBool)
+	seenH := map[string]bool{}
+	var hoist []Term
+	for _, h := range append(append([]Term{}, a.hoist...), b.hoist...) {
+		if !seenH[h.S] {
+			seenH[h.S] = true
+			hoist = append(hoist, h)
+		}
+	}
+	a.hoist = append(hoist, Eq(pa, ga), Eq(pb, gb))
+	a.pc = append(append([]Term{}, a.pc[:n]...), Eq(g, pa), Or(pa, pb))
 	newCells := map[cellKey]Val{}
 	for _, c := range cells {
 		newCells[c.k] = c.v
